@@ -22,6 +22,12 @@ FILES = {
             "hu1.c": "#include \"hdru.h\"\nvoid hu1(void){ hu(); }\n"},
     "HU2": {"hdru.h": "// cppcheck-suppress nullPointer\nstatic void hu(void){ }\n",
             "hu2.c": "#include \"hdru.h\"\nvoid hu2(void){ hu(); }\n"},
+    "HM1": {"hdrm.h": "static int hm(int x){\n// cppcheck-suppress zerodiv\nreturn x / DIVISOR; }\n",
+            "hm1.c": "#define DIVISOR 0\n#include \"hdrm.h\"\nint hm1(void){ return hm(1); }\n"},
+    "HM2": {"hdrm.h": "static int hm(int x){\n// cppcheck-suppress zerodiv\nreturn x / DIVISOR; }\n",
+            "hm2.c": "#define DIVISOR 1\n#include \"hdrm.h\"\nint hm2(void){ return hm(1); }\n"},
+    "OK2": {"ok2.c": "int ok2(int x){ return x+2; }\n"},
+    "OK3": {"ok3.c": "int ok3(int x){ return x+3; }\n"},
     "SB": {"sb.c": "void sb(void){int a[2];\n// cppcheck-suppress-begin arrayIndexOutOfBounds\na[5]=0;\na[6]=0;\n"
                    "// cppcheck-suppress-end arrayIndexOutOfBounds\na[7]=0;}\n"},
     "SM": {"sm.c": "// cppcheck-suppress-macro zerodiv\n#define DIV(x) ((x)/0)\nint sm(int x){ return DIV(x); }\n"},
